@@ -483,8 +483,12 @@ def make_batch(path, seed, plan):
     with open(path, "w") as f:
         for fam, ns, ne in plan:
             for _ in range(ns):
-                lines = FAMILIES[fam](rng)
+                lines = FAMILIES[fam.split("@")[0]](rng)
                 ex = execs(rng, ne)
+                if fam.endswith("@ps"):
+                    # plain WRITES of the library to shared records are scheduling points (per-mille probability): another
+                    # thread may run between two adjacent statements of a section the library believes protected
+                    ex = [e + " plainsched=%d" % (60 if i % 2 else 200) for i, e in enumerate(ex)]
                 if "#strategy4" in lines:      # half of the schedules of this scenario are adversarial
                     lines = [l for l in lines if l != "#strategy4"]
                     ex = [e.replace("strategy=%s" % e.split("strategy=")[1].split()[0], "strategy=%d" % (4 if i % 4 == 0 else 5)) if i % 2 == 0 else e for i, e in enumerate(ex)]   # 5 = 4 + early wake-ups
